@@ -33,6 +33,15 @@ Inductive fitfact :=
        (flag : string)                  (* "set" iff self._is_fitted = True was executed on every such path *)
        (early : bool).                  (* such an assignment is followed by more than `return` *)
 
+(* does set_params (when it is written in the package: the composites) reach the validation of the
+   names on every completing path? *)
+Inductive spfact :=
+  | PX                                  (* scikit-learn's BaseEstimator.set_params, inherited *)
+  | PA (owner : string)                 (* abstract: the body only raises *)
+  | PV (owner : string) (attr : string) (* every completing path validates; `attr` = constant first
+                                           argument of the _set_params delegation ("" if none) *)
+  | PR (owner : string) (what : string). (* some path completes before the names are validated *)
+
 Record class_row := Row {
   r_key : string;                        (* class name (name@module when ambiguous) *)
   r_module : string;
@@ -42,7 +51,8 @@ Record class_row := Row {
   (* (entry, owner, p): public method `entry` reaches code of class `owner` assigning self.p,
      p a constructor parameter of this class *)
   r_mutates : list (string * string * string);
-  r_fit : fitfact }.
+  r_fit : fitfact;
+  r_setparams : spfact }.
 
 Definition str_eqb := String.eqb.
 
@@ -143,3 +153,29 @@ Definition fit_ok_or_known (known : list (string * string * string)) (r : class_
   end.
 
 Definition fit_ok := fit_ok_or_known [].
+
+(* set_params validates the names on every completing path (no exception list: none is known) *)
+Definition setparams_ok (r : class_row) : bool :=
+  match r_setparams r with
+  | PX | PA _ | PV _ _ => true
+  | PR _ _ => false
+  end.
+
+(* the key under which a composite's set_params hands the whole component list to _set_params is the
+   one the model uses for that class (`meta`, e.g. Cases.sk_meta): classes the model treats as
+   composites delegate with exactly that key (or inherit scikit-learn's set_params: `sklearn_composites`),
+   and a concrete class that delegates with a key is a composite of the model with that key *)
+Definition is_private_or_base (n : string) : bool :=
+  String.prefix "_" n || String.prefix "Base" n.
+
+Definition meta_tie_ok (meta : string -> option (string * string)) (sklearn_composites : list string)
+           (r : class_row) : bool :=
+  match r_setparams r, meta (r_key r) with
+  | PV _ attr, Some (akey, _) => str_eqb attr akey
+  | PV _ attr, None => str_eqb attr "" || is_private_or_base (r_key r)
+  | PX, Some _ => existsb (str_eqb (r_key r)) sklearn_composites
+  | PX, None => true
+  | PA _, Some _ => false
+  | PA _, None => true
+  | PR _ _, _ => false
+  end.
